@@ -110,6 +110,9 @@ type Config struct {
 }
 
 type Options struct {
+	// OddTables: generated configurations may repeat an operator name or leave names and
+	// passwords empty (only the configuration check uses it)
+	OddTables bool
 	// StartID is added to every entry id (and so to every session id): real networks run with
 	// ids of robust.MessageOffset + raft index, i.e. around 4.6e18
 	StartID  uint64
@@ -406,10 +409,25 @@ func (g *Gen) genConfig(t *rapid.T) Config {
 		c.Opers = append(c.Opers, op)
 		fmt.Fprintf(&b, "[[IRC.Operators]]\nName = %q\nPassword = %q\n", op[0], op[1])
 	}
+	if g.opt.OddTables {
+		// tables an administrator can post although nothing sensible reads them: the same operator
+		// name twice (old and new password during a rotation), empty name or password
+		switch pickW(t, "oddopers", 3, 1, 1, 1) {
+		case 1:
+			fmt.Fprintf(&b, "[[IRC.Operators]]\nName = \"op\"\nPassword = \"rotated\"\n")
+		case 2:
+			fmt.Fprintf(&b, "[[IRC.Operators]]\nName = \"nopw\"\nPassword = \"\"\n")
+		case 3:
+			fmt.Fprintf(&b, "[[IRC.Operators]]\nName = \"\"\nPassword = \"anon\"\n")
+		}
+	}
 	for k := 0; k < nsv; k++ {
 		pw := []string{"mypass", "other"}[k]
 		c.Services = append(c.Services, pw)
 		fmt.Fprintf(&b, "[[IRC.Services]]\nPassword = %q\n", pw)
+	}
+	if g.opt.OddTables && pickW(t, "oddsvc", 4, 1) == 1 {
+		fmt.Fprintf(&b, "[[IRC.Services]]\nPassword = \"\"\n")
 	}
 	if pickW(t, "bridges", 3, 1) == 1 {
 		fmt.Fprintf(&b, "[TrustedBridges]\n\"bridgesecret\" = \"bridge one\"\n")
@@ -1223,5 +1241,11 @@ func validChan(c string) bool {
 // GenConfig draws one member of the configuration family.
 func GenConfig(t *rapid.T) Config {
 	g := New(Options{})
+	return g.genConfig(t)
+}
+
+// GenConfigOdd is GenConfig plus operator and services tables with duplicate or empty fields.
+func GenConfigOdd(t *rapid.T) Config {
+	g := New(Options{OddTables: true})
 	return g.genConfig(t)
 }
